@@ -147,13 +147,24 @@ class Funcs:
 
     def __init__(self):
         self.n = 0
+        self.calls = []     # (vid, parent type name, field name) of every call the EXECUTOR made to a field resolver
+        self.depth = 0      # (a wrapper calling the resolver it wraps is one call: the wrapper's)
 
     def make(self, impl):
         self.n += 1
+        vid = self.n
+        calls = self.calls
 
         def fn(*a, **kw):
-            return impl(*a, **kw)
-        fn._vid = self.n
+            if (self.depth == 0 and impl is not universal_resolve_type and len(a) >= 3 and hasattr(a[2], "parent_type")
+                    and len(calls) < 20000):
+                calls.append((vid, a[2].parent_type.name, a[2].field_definition.name))
+            self.depth += 1
+            try:
+                return impl(*a, **kw)
+            finally:
+                self.depth -= 1
+        fn._vid = vid
         return fn
 
 
@@ -208,7 +219,30 @@ def build_source(rng, size, funcs):
         schema = build_schema(sdl)
     desc["rare_names"] = rare
     decorate(rng, schema, funcs)
+    desc["subclassed"] = subclass_some(random_fork(rng), schema) if rng.random() < 0.12 else []
     return desc, sdl, schema
+
+
+def subclass_some(rng, schema):
+    """An application may define its own ObjectType / InterfaceType / InputObjectType subclasses: one or two type objects of
+    the source become instances of a (behaviour-free) subclass."""
+    from py_gql.schema import InputObjectType, InterfaceType, ObjectType
+
+    class AppObjectType(ObjectType):
+        pass
+
+    class AppInterfaceType(InterfaceType):
+        pass
+
+    class AppInputObjectType(InputObjectType):
+        pass
+    cand = [t for n, t in sorted(schema.types.items()) if not n.startswith("__") and type(t) in (ObjectType, InterfaceType, InputObjectType)]
+    rng.shuffle(cand)
+    done = []
+    for t in cand[:rng.randint(1, 2)]:
+        t.__class__ = {ObjectType: AppObjectType, InterfaceType: AppInterfaceType, InputObjectType: AppInputObjectType}[type(t)]
+        done.append(t.name)
+    return done
 
 
 def random_fork(rng):
@@ -271,14 +305,56 @@ def registry_digest(schema):
     }
 
 
-def registry_case(source, funcs, rng, deep):
-    """`c = source.clone()` + a few registrations on `c`: the request for the model (registries of the source before, the
-    operations) and what the real code shows afterwards (registries of the source and of the clone)."""
+def field_tables(schema):
+    """({object type: [field names]}, {type: {field: resolver id}}, {type: {field: subscription resolver id}}) of a schema."""
     from py_gql.schema import ObjectType
+    fields, fres, fsub = {}, {}, {}
+    for n, t in schema.types.items():
+        if isinstance(t, ObjectType):
+            fields[n] = [f.name for f in t.fields]
+            fres[n] = {f.name: _fid(f.resolver) for f in t.fields if f.resolver is not None}
+            fsub[n] = {f.name: _fid(f.subscription_resolver) for f in t.fields if f.subscription_resolver is not None}
+    return fields, fres, fsub
+
+
+def restrict_registry(digest, schema):
+    """The registry entries that still name a field of `schema` (what a derived schema is expected to show)."""
+    from py_gql.schema import ObjectType
+    out = dict(digest)
+    for k in ("resolvers", "subscriptions"):
+        d = {}
+        for t, by_field in digest[k].items():
+            ty = schema.types.get(t)
+            if isinstance(ty, ObjectType):
+                kept = {f: v for f, v in by_field.items() if f in ty.field_map}
+                if kept:
+                    d[t] = kept
+        out[k] = d
+    return out
+
+
+def registry_case(source, funcs, rng, cfg, kind="clone"):
+    """`c = source.clone()` (or `extend_schema(source, …)`) + a few registrations on `c`: the request for the model (registries
+    of the source before, what the fields of the source carry, the operations) and what the real code shows afterwards
+    (registries of the source and of the derived schema, or that the derivation raised). `source` may itself be a DERIVED
+    schema whose registries name fields an earlier transform renamed / removed / wrapped."""
+    from py_gql.exc import SchemaError
+    from py_gql.schema import ObjectType
+    from py_gql.sdl import extend_schema
     before = registry_digest(source)
-    c = source.clone()
+    fields, fres, fsub = field_tables(source)
+    req = {"op": "regs", "kind": kind, "cfg": cfg, "source": before, "fields": fields, "fieldres": fres, "fieldsub": fsub, "ops": []}
+    try:
+        if kind == "extend":
+            q = source.query_type.name
+            c = extend_schema(source, "extend type %s { zz_reg_case: Int }" % q)
+            fields[q] = fields.get(q, []) + ["zz_reg_case"]
+        else:
+            c = source.clone()
+    except (SchemaError, ValueError) as e:
+        return req, {"rejected": True, "why": "%s: %s" % (type(e).__name__, e), "source": registry_digest(source)}
     objs = [t for n, t in c.types.items() if isinstance(t, ObjectType) and not n.startswith("__") and t.fields]
-    ops = []
+    ops = req["ops"]
     for _ in range(rng.randint(1, 4)):
         if not objs:
             break
@@ -293,8 +369,7 @@ def registry_case(source, funcs, rng, deep):
         else:
             c.register_default_resolver(t.name, fn, allow_override=True)
         ops.append({"k": k, "t": t.name, "f": f.name, "fn": fn._vid})
-    return ({"op": "regs", "deep": deep, "source": before, "ops": ops},
-            {"source": registry_digest(source), "clone": registry_digest(c)})
+    return req, {"rejected": False, "source": registry_digest(source), "clone": registry_digest(c)}
 
 
 def post_derivation_registrations(derived, source, funcs, rng):
